@@ -122,8 +122,16 @@ def check_loader(ns, n, bs, mode):
     y = np.arange(n, dtype=np.float32)
     arg = dict(n=n, batch_size=bs, transform=mode)
     tag = (_TagSized() if mode == "tagging-sized" else _Tag()) if mode.startswith("tagging") else None
+    twod = mode == "none-2d-labels"
+    if twod:
+        # labels with several columns (one-hot rows): samples are still rows
+        y2 = np.stack([y, y + 0.25, y + 0.75], axis=1)
     try:
-        if mode == "none":
+        if mode == "none-npint":
+            dl = ns.data.DataLoader(X, y, np.int64(bs))          # a batch size that comes out of NumPy arithmetic
+        elif twod:
+            dl = ns.data.DataLoader(X, y2, bs)
+        elif mode == "none":
             dl = ns.data.DataLoader(X, y, bs)
         else:
             dl = ns.data.DataLoader(X, y, bs, transform=tag)
@@ -159,6 +167,10 @@ def check_loader(ns, n, bs, mode):
                     out.append(V("loader:item-form", "batch is not an (X, y) pair", args=arg, got=repr(item)[:100])); break
                 Xb, yb = item
             Xb = np.asarray(Xb); yb = np.asarray(yb)
+            if twod:
+                if yb.ndim != 2 or yb.shape[1:] != (3,) or (len(yb) and not (np.array_equal(yb[:, 1], yb[:, 0] + 0.25) and np.array_equal(yb[:, 2], yb[:, 0] + 0.75))):
+                    out.append(V("loader:alignment:2d-labels", f"batch {i}: rows of a 2-D label array were not kept together", args=arg)); break
+                yb = yb[:, 0]
             if len(Xb) != bs or len(yb) != bs:
                 out.append(V("loader:batch-size", f"batch {i} has {len(Xb)}/{len(yb)} samples, want exactly {bs}", args=arg)); break
             wantids = np.arange(i * bs, (i + 1) * bs)
@@ -218,7 +230,7 @@ def run_case(ns, ctx, case):
     elif case["kind"] == "loader":
         n = case["n"]
         for bs in (case.get("bs_list") or range(1, n + 4)):
-            for mode in ("none", "tagging") + (("tagging-sized",) if bs % 3 == 1 else ()):
+            for mode in ("none", "tagging") + (("tagging-sized",) if bs % 3 == 1 else ()) + (("none-npint",) if bs % 3 == 2 else ()) + (("none-2d-labels",) if bs % 3 == 0 else ()):
                 viol += check_loader(ns, n, bs, mode)
                 evals += 1
                 if n >= 2:
